@@ -122,11 +122,16 @@ class DirHandler(BaseHandler):
         if time.time() - statval[stat.ST_MTIME] < self.cachetime:
             try:
                 with self.vfs.open(self.cachename, "rb") as fp:
-                    self.fileentries = pickle.load(fp)
+                    cachedfor, fileentries = pickle.load(fp)
             except Exception:
                 # A truncated or corrupt cache file (a writer that was killed
                 # or has not finished yet) is a cache miss, not an error.
                 return False
+            if cachedfor != self.selector:
+                # The same directory reached under another name (a symbolic
+                # link to it): those entries carry the other name's selectors.
+                return False
+            self.fileentries = fileentries
             self.fromcache = True
             return True
         return False
@@ -139,6 +144,6 @@ class DirHandler(BaseHandler):
             return
         try:
             with self.vfs.open(self.cachename, "wb") as fp:
-                pickle.dump(self.fileentries, fp, 1)
+                pickle.dump((self.selector, self.fileentries), fp, 1)
         except IOError:
             pass
